@@ -11,6 +11,7 @@ use serde_json::{json, Value};
 pub const MAX_TEXT: usize = 4096;
 pub const MAX_NESTING: usize = 200;
 pub const MAX_REP_PRODUCT: u64 = 4096;
+pub const MAX_UNROLLED_BYTES: u64 = 262_144;
 
 /// Conservative size filter ("repetition counts of bounded size"): the product of all numbers
 /// that appear inside `{...}` repetition suffixes must stay <= MAX_REP_PRODUCT.
@@ -69,7 +70,9 @@ pub fn within_bounds(text: &str) -> bool {
                 // numbers that do not fit in u32 are rejected by the reader before any unrolling
                 let m = nums.iter().copied().filter(|n| *n <= u32::MAX as u64).max().unwrap_or(1).max(1);
                 prod = prod.saturating_mul(m);
-                if prod > MAX_REP_PRODUCT {
+                // unrolling copies the repeated expression: bound the size of the unrolled grammar,
+                // not only the counts (a 2 KiB expression repeated 4096 times is gigabytes of AST)
+                if prod > MAX_REP_PRODUCT || prod.saturating_mul(text.len() as u64) > MAX_UNROLLED_BYTES {
                     return false;
                 }
             }
@@ -77,6 +80,24 @@ pub fn within_bounds(text: &str) -> bool {
         i += 1;
     }
     true
+}
+
+pub const CALLS_PER_BYTE: usize = 200;
+pub const CALLS_SLACK: usize = 16;
+
+/// Some(budget) when parsing `text` as a grammar needs more combinator calls than the linear budget.
+pub fn call_budget_exceeded(text: &str) -> Option<usize> {
+    let budget = CALLS_PER_BYTE * (text.len() + CALLS_SLACK);
+    pest::set_call_limit(std::num::NonZeroUsize::new(budget));
+    let r = catch(|| match pest_meta::parser::parse(pest_meta::parser::Rule::grammar_rules, text) {
+        Err(e) => e.variant.message() == "call limit reached",
+        Ok(_) => false,
+    });
+    pest::set_call_limit(None);
+    match r {
+        Ok(true) => Some(budget),
+        _ => None, // a panic is reported by the main oracle below
+    }
 }
 
 fn loc_ok(text: &str, loc: &InputLocation) -> bool {
@@ -95,6 +116,19 @@ pub fn check_text(ctx: &mut Ctx, text: &str, origin: &str) -> Result<(), Fail> {
     ctx.eval();
     let case = json!({"config": config_name(), "text": text});
     ctx.inflight(&case);
+    // "in bounded time", made deterministic: the combinator calls of the syntactic parse, counted by pest's own
+    // call limit, stay within a budget linear in the text (CALLS_PER_BYTE is ~7x the largest ratio measured
+    // on the repository's grammars, on generated grammars and on a libFuzzer corpus with its openers neutralised)
+    if let Some(over) = call_budget_exceeded(text) {
+        // attribution by counterfactual: the same text with every "/*" blanked
+        let neutral = text.replace("/*", "  ");
+        let sig = if call_budget_exceeded(&neutral).is_none() { "c09:call-budget-exceeded:block-comment-openers" } else { "c09:call-budget-exceeded" };
+        return Err(Fail::new(
+            sig,
+            format!("the meta parser needs more than {over} combinator calls for this {}-byte text (budget {CALLS_PER_BYTE}*(len+{CALLS_SLACK})): super-linear backtracking ({origin}):\n{text}", text.len()),
+            case,
+        ));
+    }
     let r = catch(|| {
         // docs::consume runs on whatever the meta parser accepts
         let syntactic = pest_meta::parser::parse(pest_meta::parser::Rule::grammar_rules, text);
@@ -326,7 +360,26 @@ pub fn run(ctx: &mut Ctx) {
     // (c) rule-shaped soup: name = { soup }
     let strat = proptest::collection::vec((0..DICT.len(), 0..GAPS.len()), 0..16).prop_map(|v| format!("r0 = {{ {} }}", v.iter().map(|(d, g)| format!("{}{}", DICT[*d], GAPS[*g])).collect::<String>()));
     ctx.run_prop(n / 4, 4, strat, |ctx, t| check_text(ctx, t, "rule-shaped-soup"));
+    // (d) one or two unterminated constructs repeated up to 60 times (the shape on which backtracking compounds)
+    let strat = (0..FRAGMENTS.len(), 0..FRAGMENTS.len(), 0..GAPS.len(), 1usize..60, any::<bool>(), any::<bool>()).prop_map(|(a, b, g, k, two, wrap)| {
+        let mut t = String::new();
+        for i in 0..k {
+            t.push_str(FRAGMENTS[if two && i % 2 == 1 { b } else { a }]);
+            t.push_str(GAPS[g]);
+        }
+        if wrap {
+            format!("r0 = {{ {t} }}")
+        } else {
+            t
+        }
+    });
+    ctx.run_prop(n / 16, 5, strat, |ctx, t| check_text(ctx, t, "repeated-open-construct"));
 }
+
+/// Unterminated or half-open constructs; stream (d) repeats one or two of them many times.
+pub const FRAGMENTS: [&str; 28] = [
+    "/* ", "/*x", "/*/ ", "(", "[", "{", "\"", "'", "PUSH(", "PEEK[", "PEEK[1..", "r = {", "r = { (", "a ~ ", "a | ", "!", "&", "#t = ", "\"\\", "\"\\u{", "'\\", "^\"", "a{", "a{1,", "//", "///", "//!", "_{",
+];
 
 pub fn replay(case: &Value) -> Result<(), Fail> {
     let text = case["text"].as_str().expect("text");
@@ -336,8 +389,8 @@ pub fn replay(case: &Value) -> Result<(), Fail> {
 
 pub const DEF: CheckDef = CheckDef {
     id: "C09",
-    rule: "Texts, not grammars: (a1) chunks of the repository's .pest files mutated at token level (delete/duplicate/swap/replace/insert from a dictionary of meta-grammar tokens incl. out-of-range numbers, malformed and out-of-range escapes, lone quotes, non-ASCII; truncation at a token or inside one; numbers replaced by 0 / 2^31 +- 1 / 2^32 +- 1 / 2^64) and every byte-truncation of the small chunks; (a2) the same mutations of canonical printings of generated valid grammars; (b) random token soup over that dictionary with random gaps/comments; (c) the same soup wrapped as `r0 = { ... }`. Stated bounds: text <= 4 KiB, bracket nesting <= 200, product of the numbers inside {..} suffixes <= 4096 (larger ones are filtered before the call and counted under excluded_by_construction). Oracle: parse_and_optimize and generator::docs::consume return under catch_unwind (worker survival = no abort); on Err the list is non-empty, every location lies in 0..=len on char boundaries with start <= end, Display and renamed_rules(rename_meta_rule) render; on Ok Display of every optimized expression renders. Non-trivial = the text gets past the meta parser (reaches consumption/validation) or its first error lies within 12 bytes of the end; distinct = distinct text.",
-    assumptions: &["time is bounded by the stated size bounds; a watchdog kill is reported as inconclusive (exit 2), never as a violation"],
+    rule: "Texts, not grammars: (a1) chunks of the repository's .pest files mutated at token level (delete/duplicate/swap/replace/insert from a dictionary of meta-grammar tokens incl. out-of-range numbers, malformed and out-of-range escapes, lone quotes, non-ASCII; truncation at a token or inside one; numbers replaced by 0 / 2^31 +- 1 / 2^32 +- 1 / 2^64) and every byte-truncation of the small chunks; (a2) the same mutations of canonical printings of generated valid grammars; (b) random token soup over that dictionary with random gaps/comments; (c) the same soup wrapped as `r0 = { ... }`; (d) one or two unterminated constructs (comment/paren/bracket/string/PUSH/PEEK/repetition openers, dangling operators) repeated 1..60 times. Stated bounds: text <= 4 KiB, bracket nesting <= 200, product of the in-range numbers inside {..} suffixes <= 4096 and that product x text length <= 256 KiB (the unroller copies the repeated expression; larger cases are filtered before the call and counted under excluded_by_construction). Oracle: (time) the syntactic parse stays within 200*(len+16) combinator calls, enforced with pest's own call limit, and a text over budget is attributed by re-running it with every `/*` blanked; (totality) parse_and_optimize and generator::docs::consume return under catch_unwind (worker survival = no abort); on Err the list is non-empty, every location lies in 0..=len on char boundaries with start <= end, Display and renamed_rules(rename_meta_rule) render; on Ok Display of every optimized expression renders. Non-trivial = the text gets past the meta parser (reaches consumption/validation) or its first error lies within 12 bytes of the end; distinct = distinct text.",
+    assumptions: &["'bounded time' is read as a linear budget of combinator calls for the meta parser (200 per byte; largest ratio measured on texts without the known blow-up: 28); validation and optimisation time is bounded by the stated size bounds only, and a watchdog kill there is reported as inconclusive (exit 2), never as a violation"],
     floor: |t| t.pick(50_000, 500_000),
     shards: |_| 16,
     run,
